@@ -7,6 +7,7 @@ use super::{DataType, Tuple, TupleSchema, Value};
 use arrow::array::{
     Array, ArrayRef, BooleanArray, FixedSizeListArray, Float32Array, Float64Array, Int32Array,
     Int64Array, Int8Array, LargeListArray, ListArray, NullArray, StringArray,
+    TimestampMillisecondArray,
 };
 use arrow::buffer::OffsetBuffer;
 use arrow::datatypes::{DataType as ArrowDataType, Field};
@@ -201,12 +202,12 @@ fn build_column_array(
             }
         }
         DataType::Timestamp => {
-            // Timestamps stored as Int64 (Unix milliseconds)
+            // Timestamps stored as Arrow millisecond timestamps (Unix milliseconds)
             let values: Vec<Option<i64>> = tuples
                 .iter()
                 .map(|t| t.get(col_idx).and_then(super::Value::as_timestamp))
                 .collect();
-            Ok(Arc::new(Int64Array::from(values)))
+            Ok(Arc::new(TimestampMillisecondArray::from(values)))
         }
         DataType::VectorInt8 { dim } => {
             // Build array from int8 vectors - use FixedSizeList when dimension is known
@@ -268,6 +269,9 @@ fn extract_value_from_array(array: &dyn Array, row_idx: usize) -> Result<Value, 
     }
     if let Some(arr) = array.as_any().downcast_ref::<Float64Array>() {
         return Ok(Value::Float64(arr.value(row_idx)));
+    }
+    if let Some(arr) = array.as_any().downcast_ref::<TimestampMillisecondArray>() {
+        return Ok(Value::Timestamp(arr.value(row_idx)));
     }
     if let Some(arr) = array.as_any().downcast_ref::<StringArray>() {
         return Ok(Value::String(Arc::from(arr.value(row_idx))));
@@ -378,7 +382,7 @@ fn empty_array_for_type(dt: &DataType) -> ArrayRef {
                 ))
             }
         }
-        DataType::Timestamp => Arc::new(Int64Array::from(Vec::<i64>::new())),
+        DataType::Timestamp => Arc::new(TimestampMillisecondArray::from(Vec::<i64>::new())),
     }
 }
 
